@@ -94,6 +94,7 @@ def audit(ctx, R, W, outs, op, grids, expect_delta, result_terms):
 
 
 def explore(ctx, R, W, fn, args, op):
+    W.seal()
     try:
         outs = W.ex.run(fn, args, W.st)
     except Violation as v:
